@@ -70,6 +70,25 @@ def TSched.update (decideOnce : Bool) (s : TSched) (r1 r2 r3 : Rat) : Upd :=
     if s.due r2 then ⟨{ s with prev := r3 }, fired, ran, 3⟩
     else ⟨s, fired, ran, 2⟩
 
+/-- Result of an `update()` in which a callback may raise. -/
+structure UpdF where
+  st : TSched
+  ran : List Nat        -- callbacks invoked (the raising one included), in invocation order
+  raised : Bool         -- the exception of a callback left `update()`
+  reads : Nat
+deriving DecidableEq, Repr
+
+/-- `update()` (as repaired) when the callback at position `failAt` of the list raises: the loop
+stops there, the exception propagates, and the statement that restarts the interval is not reached. -/
+def TSched.updateF (s : TSched) (r1 r2 : Rat) (failAt : Option Nat) : UpdF :=
+  if s.due r1 then
+    match failAt with
+    | some k =>
+      if k < s.cbs.length then ⟨s, s.cbs.take (k + 1), true, 1⟩
+      else ⟨{ s with prev := r2 }, s.cbs, false, 2⟩
+    | none => ⟨{ s with prev := r2 }, s.cbs, false, 2⟩
+  else ⟨s, [], false, 1⟩
+
 /-! ### `StepIntervalScheduler` -/
 
 structure SSched where
@@ -96,6 +115,23 @@ def SSched.update (s : SSched) : SUpd :=
   let fired := s1.due
   let ran := if fired then s1.cbs else []
   if s1.due then ⟨{ s1 with steps := 0 }, fired, ran⟩ else ⟨s1, fired, ran⟩
+
+structure SUpdF where
+  st : SSched
+  ran : List Nat
+  raised : Bool
+deriving DecidableEq, Repr
+
+/-- `update()` of the step scheduler when the callback at position `failAt` raises: the step has been
+counted, the counter is not reset (the next update is due again). -/
+def SSched.updateF (s : SSched) (failAt : Option Nat) : SUpdF :=
+  let s1 := { s with steps := s.steps + 1 }
+  if s1.due then
+    match failAt with
+    | some k =>
+      if k < s1.cbs.length then ⟨s1, s1.cbs.take (k + 1), true⟩ else ⟨{ s1 with steps := 0 }, s1.cbs, false⟩
+    | none => ⟨{ s1 with steps := 0 }, s1.cbs, false⟩
+  else ⟨s1, [], false⟩
 
 /-! ### `PeriodicSaveCondition` : a flag latched by the single callback of a time scheduler -/
 
